@@ -156,11 +156,14 @@ func (e *enc) lookupLocalAtHeader(fr *frame, h *ssa.BasicBlock, ls *loopState, n
 
 // verifyLemmas: every `lemma` of the spec set is proved here: its bound variables become fresh constants,
 // so the negated statement is a ground query in which opaque and recursive definitions are unfolded.
-func verifyLemmas(w *World, ss *SpecSet) *FuncResult {
+func verifyLemmas(w *World, ss *SpecSet, pkgs ...map[string]bool) *FuncResult {
 	res := &FuncResult{Name: "lemmas"}
 	for _, ax := range ss.Axioms {
 		if !ax.Lemma {
 			continue
+		}
+		if len(pkgs) > 0 && pkgs[0] != nil && !pkgs[0][ax.PkgPath] {
+			continue // a lemma is proved by the checks that verify functions of its package
 		}
 		q, ok := ax.E.(*SQuant)
 		if !ok || !q.Forall {
